@@ -16,6 +16,11 @@ NOTES = {
     ("C17", "A"): "missed — the `flip` flag of the parallels (thick-line phase arithmetic, not claimed, section 6)",
     ("C17", "C"): "missed — the `flip` flag of the parallels (thick-line phase arithmetic, not claimed, section 6)",
     ("C20", "C"): "missed — number of rows printed by Debug (iterator adaptor semantics, section 6)",
+    ("C08", "H"): "missed — the underflow needs the relational invariant `nb_dots >= 1 whenever the dotted branch runs` (outside the interval domain; the site is in the unclaimed baseline, section 6)",
+    ("C16", "H"): "missed — a new `Iterator::nth` override whose result must equal n+1 calls of `next` (an inductive relation between two functions, not a shape of either; section 6)",
+    ("C17", "H"): "own check silent (a new `nth` override, as C16-H); the division by zero it introduces is reported by C08",
+    ("C17", "J"): "own check silent — tie bias in the phase arithmetic of the parallels (numeric, not claimed, section 6); C08 reports the new unchecked `+ 1` only incidentally",
+    ("C18", "H"): "missed — a reduced scan area for arc points that is right for every sweep below 360 degrees (needs angle arithmetic on runtime values, section 6)",
 }
 rows = []
 for p in sorted(os.listdir(os.path.join(V, "_incoming"))):
